@@ -34,6 +34,76 @@ theorem calls_sound (tbl : List FnSummary) (W : State) (hc : Closed tbl W) (fn :
     · exact calls_sound tbl W hc fn hlt rest hrest r h
 end
 
+theorem testBit_of_or_eq {a b : Nat} (h : a ||| b = b) {j : Nat} (hj : a.testBit j = true) : b.testBit j = true := by
+  rw [← h, Nat.testBit_or, hj]; rfl
+
+theorem testBit_rowOf (n S i j : Nat) :
+    (rowOf n S i).testBit j = (decide (j < n) && S.testBit (i * n + j)) := by
+  simp [rowOf, Nat.testBit_mod_two_pow, Nat.testBit_shiftRight]
+
+mutual
+/-- If `R` is reach-closed for the table, every function executed during any conforming run (any call tree,
+    any depth) is in the row `R` has for the run's function. -/
+theorem run_fns_sound (tbl : List FnSummary) (R : ReachState) (hc : ReachClosed tbl R) :
+    ∀ run : Run, run.Conforms tbl → ∀ j ∈ run.fns, (rowOf tbl.length R run.fn).testBit j = true
+  | .node fn own calls, hconf, j, hj => by
+    simp only [Run.Conforms] at hconf
+    obtain ⟨hlt, _, hcalls⟩ := hconf
+    simp only [Run.fns, List.mem_cons] at hj
+    have hcl := hc fn (List.mem_range.mpr hlt)
+    rcases hj with h | h
+    · rw [h, testBit_rowOf]; simp [Run.fn, hlt, hcl.1]
+    · exact calls_fns_sound tbl R hc fn hlt calls hcalls j h
+theorem calls_fns_sound (tbl : List FnSummary) (R : ReachState) (hc : ReachClosed tbl R) (fn : Nat)
+    (hlt : fn < tbl.length) :
+    ∀ calls : List (CallEdge × Run), Run.ConformsCalls tbl fn calls →
+      ∀ j ∈ Run.fnsCalls calls, (rowOf tbl.length R fn).testBit j = true
+  | [], _, j, hj => by simp [Run.fnsCalls] at hj
+  | (e, run) :: rest, hconf, j, hj => by
+    simp only [Run.ConformsCalls] at hconf
+    obtain ⟨he, hfn, hrun, hrest⟩ := hconf
+    simp only [Run.fnsCalls, List.mem_append] at hj
+    rcases hj with h | h
+    · have hx := run_fns_sound tbl R hc run hrun j h
+      rw [hfn] at hx
+      exact testBit_of_or_eq ((hc fn (List.mem_range.mpr hlt)).2 e he) hx
+    · exact calls_fns_sound tbl R hc fn hlt rest hrest j h
+end
+
+mutual
+/-- every function executed during a conforming run is a function of the table -/
+theorem run_fns_lt (tbl : List FnSummary) :
+    ∀ run : Run, run.Conforms tbl → ∀ j ∈ run.fns, j < tbl.length
+  | .node fn own calls, hconf, j, hj => by
+    simp only [Run.Conforms] at hconf
+    obtain ⟨hlt, _, hcalls⟩ := hconf
+    simp only [Run.fns, List.mem_cons] at hj
+    rcases hj with h | h
+    · rw [h]; exact hlt
+    · exact calls_fns_lt tbl fn calls hcalls j h
+theorem calls_fns_lt (tbl : List FnSummary) (fn : Nat) :
+    ∀ calls : List (CallEdge × Run), Run.ConformsCalls tbl fn calls → ∀ j ∈ Run.fnsCalls calls, j < tbl.length
+  | [], _, j, hj => by simp [Run.fnsCalls] at hj
+  | (e, run) :: rest, hconf, j, hj => by
+    simp only [Run.ConformsCalls] at hconf
+    obtain ⟨_, _, hrun, hrest⟩ := hconf
+    simp only [Run.fnsCalls, List.mem_append] at hj
+    rcases hj with h | h
+    · exact run_fns_lt tbl run hrun j h
+    · exact calls_fns_lt tbl fn rest hrest j h
+end
+
+/-- hence: every function executed during a conforming run is in `reachOf` of the run's function, as soon as the
+    computed reachability is closed -/
+theorem run_fns_reach (tbl : List FnSummary) (hc : ReachClosed tbl (reachAll tbl)) (run : Run)
+    (h : run.Conforms tbl) : ∀ j ∈ run.fns, j ∈ reachOf tbl run.fn := by
+  intro j hj
+  have hlt := run_fns_lt tbl run h j hj
+  have hb := run_fns_sound tbl (reachAll tbl) hc run h j hj
+  rw [testBit_rowOf] at hb
+  simp only [reachOf, List.mem_filter, List.mem_range]
+  exact ⟨hlt, by simpa [hlt] using hb⟩
+
 /-- Threads that only read have no data race — whatever their number. -/
 theorem no_race_of_readOnly (ts : List Thread) (h : ReadOnly ts) : ¬ Race ts := by
   rintro ⟨i, j, e₁, e₂, t₁, t₂, _, h1, h2, m1, m2, _, hw⟩
